@@ -7,17 +7,18 @@ cd "$(dirname "$0")/.."
 PAT="${1:-.}"
 [ -z "$(git -C /repo status --porcelain)" ] || { echo "/repo is not clean"; exit 2; }
 : > seeded/RESULTS.tmp
-ok=0; bad=0
+ok=0; bad=0; design=0
 for d in seeded/*/; do
-  id=$(basename "$d"); echo "$id" | grep -Eq "$PAT" || continue
+  id=$(basename "$d"); echo "$id" | grep -Eq -e "$PAT" || continue
   prop=${id%%-*}
   if ! git -C /repo apply "$PWD/$d/patch.diff" 2>/dev/null; then echo "$id: patch does not apply" | tee -a seeded/RESULTS.tmp; bad=$((bad+1)); continue; fi
   out=$(VERIF_EVIDENCE_DIR="$PWD/.scratch/seedrun-evidence" ./run.sh "$prop" quick 2>&1); rc=$?
   git -C /repo checkout -- . ; git -C /repo clean -fdq
   line=$(echo "$out" | grep -A1 '^VIOLATION' | sed -n 2p | cut -c1-220)
   if [ $rc -eq 1 ] && echo "$out" | grep -q '^VIOLATION'; then echo "$id: DETECTED by ./run.sh $prop quick:$line" | tee -a seeded/RESULTS.tmp; ok=$((ok+1));
+  elif grep -q '"detection_status": "NOT DETECTED BY DESIGN' "$d/meta.json"; then echo "$id: not detected, by design (outside the statement's domain, see meta.json) rc=$rc" | tee -a seeded/RESULTS.tmp; design=$((design+1));
   else echo "$id: MISSED (rc=$rc)" | tee -a seeded/RESULTS.tmp; bad=$((bad+1)); fi
 done
-echo "seeded changes: $ok detected, $bad missed/broken" | tee -a seeded/RESULTS.tmp
-[ "$PAT" = "." ] && mv seeded/RESULTS.tmp seeded/RESULTS.txt || rm -f seeded/RESULTS.tmp
+echo "seeded changes: $ok detected, $design outside the domain by design, $bad missed/broken" | tee -a seeded/RESULTS.tmp
+if [ "$PAT" = "." ]; then mv seeded/RESULTS.tmp seeded/RESULTS.txt; else cat seeded/RESULTS.tmp >> seeded/RESULTS.partial.txt; rm -f seeded/RESULTS.tmp; fi
 [ -z "$(git -C /repo status --porcelain)" ] || echo "WARNING: /repo not clean after the run"
